@@ -5,8 +5,8 @@ from typing import TYPE_CHECKING
 from typing_extensions import Self, override
 from whenever import Instant
 
-from eascheduler.errors.errors import JobNotLinkedToSchedulerError
-from eascheduler.jobs.base import IdType, JobBase
+from eascheduler.errors.errors import JobAlreadyFinishedError, JobNotLinkedToSchedulerError
+from eascheduler.jobs.base import STATUS_FINISHED, IdType, JobBase
 
 
 if TYPE_CHECKING:
@@ -24,6 +24,8 @@ class CountdownJob(JobBase):
         self.set_next_run(None)
 
     def set_countdown(self, secs: float) -> None:
+        if self.status is STATUS_FINISHED:
+            raise JobAlreadyFinishedError()
         if not isinstance(secs, (int, float)):
             raise TypeError()
         if secs <= 0:
